@@ -170,6 +170,9 @@ fn cf_rule_p(r: &ConditionalFormattingRule, o: Opts) -> Value {
         "percent": r.get_percent(), "bottom": r.get_bottom(), "rank": r.get_rank(), "stop_if_true": r.get_stop_if_true(),
         "formula": r.get_formula().map(|f| f.get_address_str()),
         "style": if o.styles { r.get_style().map(style_p) } else { None },
+        // the rule's format in a nutshell, ALWAYS part of the rule (which differential format a rule points at is what
+        // the rule does): bold | background colour | font colour
+        "format_tag": r.get_style().map(|s| format!("{}|{}|{}", s.get_font().map(|f| *f.get_bold()).unwrap_or(false) as u8, s.get_background_color().map(|c| c.get_argb().to_string()).unwrap_or_default(), s.get_font().map(|f| f.get_color().get_argb().to_string()).unwrap_or_default())),
         "color_scale": r.get_color_scale().map(|c| json!({"colors": c.get_color_collection().iter().map(color_p).collect::<Vec<_>>(), "cfvo": c.get_cfvo_collection().len()})),
         "has_data_bar": r.get_data_bar().is_some(), "has_icon_set": r.get_icon_set().is_some(),
     })
